@@ -214,9 +214,8 @@ func registerIntrinsics(e *Engine) {
 			p.eng.noteUse("tasks: request-level interleavings of internally spawned goroutines, context-bounded (zzTurnBudget switches away from a runnable task); blocked tasks hand over in spawn order")
 		}
 		if p.turnBudget > 0 {
-			if p.yield() {
-				p.turnBudget--
-			}
+			// the budget is spent before control moves, so the task switched to cannot spend it again
+			p.yieldWith(func() { p.turnBudget-- })
 		}
 		p.newInput("zz_turn", "", a[0].(*smt.T))
 		return nil
